@@ -92,7 +92,7 @@ fn one(ctx: &mut Ctx, class: &str, d: &[u8], m: u8, mname: &str) {
 pub fn run(ctx: &mut Ctx) {
     let mut lens: Vec<usize> = vec![0, 1, 2, 3, 4, 5, 6, 8, 16, 17, 63, 64, 127, 128, 129, 130, 131, 255, 256, 257, 511, 512, 513, 1000, 4095, 4096, 4097, 65535, 65536];
     if ctx.thorough { lens.extend([65537, 131072, 262144, 1 << 20, (1 << 21) - 1, 1 << 21]); for _ in 0..40 { lens.push(ctx.rng.range(1, 70000) as usize); } }
-    else { lens.extend([1 << 20]); for _ in 0..6 { lens.push(ctx.rng.range(1, 20000) as usize); } }
+    else { lens.extend([1 << 20, (1 << 20) + 1, 1 << 21]); for _ in 0..6 { lens.push(ctx.rng.range(1, 20000) as usize); } }
     for &len in &lens {
         let mut rng = ctx.rng.clone();
         let classes = data_classes(&mut rng, len);
